@@ -80,6 +80,9 @@ fn main() {
             Ok(s) => writeln!(out, "{}", s).unwrap(),
             Err(_) => writeln!(out, "PANIC").unwrap(),
         }
+        // flush per line: if a later call kills the process, every earlier result has already been delivered and the
+        // caller can attribute the death to the right input line
+        out.flush().unwrap();
     }
     out.flush().unwrap();
 }
